@@ -5,6 +5,8 @@ import JT.Model.Miss
 import JT.Model.Parse
 import JT.Model.Location
 import JT.Model.Reply
+import JT.Model.Layout
+import JT.Model.Codec
 /-!
 Line-protocol driver: one operation per input line, one result line per operation.
 `<idx> <op> <args…>` ↦ `<idx> <result>`.
@@ -103,7 +105,7 @@ def run0704Items : Nat → Nat → Bytes → List String → Res (List String)
       | .panic => .panic
 
 def run0704 (b : Bytes) : Res String :=
-  if b.length < 31 then .err else
+  if b.length < 3 then .err else
   let n := be16 (b.getD 0 0) (b.getD 1 0)
   match run0704Items n 0 (b.drop 3) [] with
   | .ok parts => .ok s!"n={n},t={(b.getD 2 0).toNat},{"|".intercalate parts}"
@@ -142,6 +144,44 @@ def stabRun : Nat → Parse.PState → List (Nat × Bytes) → Nat → String
     if err then s!"ok n={n + msgs.length + reqs.length} alias=0 changed=0"
     else stabRun (now + dt) st' r (n + msgs.length + reqs.length)
 
+/-- all nibbles are decimal digits (BCD) -/
+def isBcd (b : Bytes) : Bool := b.all fun x => x.toNat / 16 < 10 && x.toNat % 16 < 10
+
+/-- parse-then-encode of a body, for the types that have a Lean model; `none` = not modelled -/
+def rtModel (ty : String) (b : Bytes) : Option (Res Bytes) :=
+  match Layout.lookup ty with
+  | some (n, pf, _, true) =>
+    -- time fields are strings in Go: `Time2BCD (BCD2Time x) = x` only for BCD digits; other inputs are not modelled
+    let timeOk := pf.all fun f => !(f.2.2.endsWith "Time") || isBcd ((b.drop f.1).take (f.2.1 - f.1))
+    if b.length = n && !timeOk then none
+    else match Layout.parseL n pf b with
+      | .ok v => some (.ok (Layout.encodeL v))
+      | .err => some .err
+      | .panic => some .panic
+  | some (_, _, _, false) => none
+  | none =>
+    match ty with
+    | "P0x8003" => some (match Codec.parse8003 b with | .ok v => .ok (Codec.encode8003 v) | .err => .err | .panic => .panic)
+    | "P0x8800" => some (match Codec.parse8800 b with | .ok v => .ok (Codec.encode8800 v) | .err => .err | .panic => .panic)
+    | "T0x0805" => some (match Codec.parse0805 b with | .ok v => .ok (Codec.encode0805 v) | .err => .err | .panic => .panic)
+    | "P0x9212" => some (match Codec.parse9212 b with | .ok v => .ok (Codec.encode9212 v) | .err => .err | .panic => .panic)
+    | _ => none
+
+/-- outcome class of decoding (C03) for the decoders that have a Lean model -/
+def totModel (ty : String) (b : Bytes) : Option String :=
+  match rtModel ty b with
+  | some (.ok _) => some "ok"
+  | some .err => some "err"
+  | some .panic => some "panic"
+  | none =>
+    match ty with
+    | "jt808.JTMessage" => some (match Frame.decode b with | .ok _ => "ok" | .err => "err" | .panic => "panic")
+    | "jt1078.Packet" => some (match Rtp.decode b with | .ok _ => "ok" | _ => "err")
+    | "T0x0200" => some (match Loc.parse0200 b with | .ok _ => "ok" | .err => "err" | .panic => "panic")
+    | "T0x0704" => some (match run0704 b with | .ok _ => "ok" | .err => "err" | .panic => "panic")
+    | "T0x0801" => some (match run0801 b with | .ok _ => "ok" | .err => "err" | .panic => "panic")
+    | _ => none
+
 def runOp (op : String) (args : List String) : String :=
   match op, args with
   | "dec", [f] =>
@@ -161,6 +201,23 @@ def runOp (op : String) (args : List String) : String :=
       | "0704" => showRes (run0704 b)
       | "0801" => showRes (run0801 b)
       | _ => "bad-op"
+  | "rt", ty :: _ctx :: body :: _ =>
+    match ofHex body with
+    | none => "bad-op"
+    | some b =>
+      match rtModel ty b with
+      | some (.ok e) => s!"ok {hexOrDash e}"
+      | some .err => "err"
+      | some .panic => "panic"
+      | none =>
+        match ty with
+        | "jt808.JTMessage" => (match Frame.decode b with | .ok _ => "ok" | .err => "err" | .panic => "panic")
+        | "jt1078.Packet" => (match Rtp.decode b with | .ok _ => "ok" | _ => "err")
+        | _ => "skip"
+  | "tot", ty :: _ctx :: body :: _ =>
+    match ofHex body with
+    | none => "bad-op"
+    | some b => (totModel ty b).getD "skip"
   | "stab", [sess] =>
     -- C09: number of messages delivered; after the D12 repair every delivered field is an owned copy
     match parseSession sess with
